@@ -475,6 +475,40 @@ PROPS["C18"] = dict(
     assumptions=ASSUME_COMMON + ["built without sanitizers: their interceptors would shadow the interposed symbols"],
 )
 
+_SHIM = ["-I", "/verif/lib/shim", "-pthread"]
+PROPS["C04"] = dict(
+    units=[dict(name="c04-float", src="props/c04.cpp", flags=["-DVERIF_T=float"] + _SHIM, libs=["-ldl", "-pthread"]),
+           dict(name="c04-double", src="props/c04.cpp", flags=["-DVERIF_T=double"] + _SHIM, libs=["-ldl", "-pthread"]),
+           dict(name="c04-ldouble", src="props/c04.cpp", flags=["-DVERIF_T=long double"] + _SHIM, libs=["-ldl", "-pthread"])],
+    engine="mpi-shim",
+    rule="case = world size P (1..33) x generated schedule (arrival order of the ranks per scheduling round, reduction "
+         "order per collective as a permutation folded left-to-right or pairwise as a tree) x integrator (generated "
+         "configuration: distributions, user grids / weights incl. disabled channels) x 1..4 iterations with calls from {0, "
+         "1, P-1, P, P+1, primes, multiples of P, 0..3000} x engine (mt19937, minstd_rand, ranlux24, synthetic range 2^14, "
+         "independent_bits_engine<7>) x built-in mpi_callback mode (silent / verbose / writing) x target 0 or 10^-2..1; one "
+         "unit per numeric type; non-trivial: P >= 2 and some calls not divisible by P or below P; inner_evaluations = "
+         "points compared with the serial run; distinct = distinct description",
+    quick=dict(shards=3, cases=300),
+    thorough=dict(shards=5, cases=12000),
+    floors={"uneven-split": 0.4, "calls<P": 0.2, "P>=9": 0.1, "positive-target": 0.1, "with-distributions": 0.3, "VEGAS": 0.2, "MULTI": 0.2,
+            "engine:range 2^14": 0.08, "engine:independent_bits<7>": 0.08},
+    level_text="differential against the serial integrator from the same checkpoint: for every iteration k the "
+               "concatenation in rank order of the per-rank point logs equals bit for bit the point log of the serial "
+               "*_iteration run from the generator (rollback(k) on a copy) and the grid / weights the MPI checkpoint records "
+               "for k; per-rank shares are floor/ceil and sum to the calls; counters (also per bin) equal; the stored "
+               "generator equals the serial one; compensated sums agree within 4 (P+2) eps, uncompensated sums (squares, "
+               "adjustment data) within (n + 4 (P+2)) eps; result k+1 records the refinement of result k; all ranks return byte-identical checkpoints and issue "
+               "the same sequence of (collective, count, datatype) - a rank returning while others wait is reported as a "
+               "hang by the shim's bookkeeping; only rank 0 prints and opens the checkpoint file; exploration over generated "
+               "world sizes, schedules and configurations",
+    level_note="trusted: the in-process shim (lib/shim/mpi.h, 250 lines: ranks are threads run one at a time in a generated "
+               "order; MPI_Allreduce folds in a generated order); real network schedules are not explored - the shim owns "
+               "arrival and reduction order; 'no rank hangs' is decided in its safety form (identical collective sequences)",
+    technique="rapidcheck over choice tapes on an in-process MPI shim with generated schedules; differential against the serial integrator from the recorded state",
+    assumptions=ASSUME_COMMON + ["MPI semantics assumed of the shim: MPI_Allreduce(MPI_IN_PLACE, MPI_SUM) delivers the same "
+                                 "value to all ranks, reduction order unspecified"],
+)
+
 NOT_APPLICABLE = {}
 
 ENGINES = [
@@ -496,5 +530,8 @@ NOTES = ("All checks are ./vcheck <ID> --tier quick|thorough (python3 stdlib dri
 ENGINES.append(dict(name="crash-interposer", path="props/c18.cpp", kind_free_text="file-system entry points defined in the "
                     "harness binary (they shadow libc's for libstdc++'s filebuf), fork + SIGKILL at every tracked call",
                     serves_properties=["C18"]))
+ENGINES.append(dict(name="mpi-shim", path="lib/shim/mpi.h", kind_free_text="in-process MPI shim: ranks are threads that run one at a "
+                    "time under a generated schedule, MPI_Allreduce with generated reduction order, collective log per rank, "
+                    "logical hang detection", serves_properties=["C04"]))
 for _e in ENGINES[:3]:
     _e["serves_properties"] = sorted(PROPS.keys())
